@@ -643,6 +643,71 @@ def run_cases(cases: list[dict], res: Result) -> None:
             res.samples.append({"case": case, "trace": [f"{r} -> {o}" for r, o in b.lines[:16]]})
 
 
+def run_cache_clear_leg(res: Result, only: dict | None = None) -> None:
+    """cache_clear() while calls are in flight or queued on a key's lock (oracle only; cache_clear is not
+    part of the model): every caller still gets what the wrapped function returned for its arguments, no
+    caller sees an internal error, and later calls are computed and served correctly.  The counters are
+    not judged here (DESIGN section 4, observation O2)."""
+    import anyio
+    from anyio.functools import lru_cache
+
+    for maxsize in (None, 1, 2):
+        for ac in (False, True):
+            for nwait in (0, 1, 2):
+                case = {"cache_clear": {"maxsize": maxsize, "always_checkpoint": ac, "waiters": nwait}}
+                if only is not None and only != case["cache_clear"]:
+                    continue
+                out: dict[str, Any] = {}
+
+                async def main() -> None:
+                    gate = anyio.Event()
+                    calls: list[int] = []
+
+                    @lru_cache(maxsize=maxsize, always_checkpoint=ac)
+                    async def f(x: int) -> tuple:
+                        calls.append(x)
+                        if x == 1 and calls.count(1) == 1:
+                            await gate.wait()
+                        return ("v", x)
+
+                    async def caller(tag: str, x: int) -> None:
+                        try:
+                            out[tag] = await f(x)
+                        except BaseException as e:  # noqa: BLE001
+                            out[tag] = f"raised {type(e).__name__}: {e}"
+                            if not isinstance(e, Exception):
+                                raise
+
+                    with anyio.fail_after(10):
+                        async with anyio.create_task_group() as tg:
+                            tg.start_soon(caller, "first", 1)
+                            for k in range(nwait):
+                                tg.start_soon(caller, f"waiter{k}", 1)
+                            tg.start_soon(caller, "other", 2)
+                            await anyio.wait_all_tasks_blocked()
+                            f.cache_clear()
+                            gate.set()
+                        out["again1"] = await f(1)
+                        out["again2"] = await f(2)
+                        out["third"] = await f(3)
+                        out["again1b"] = await f(1)
+
+                try:
+                    anyio.run(main)
+                except BaseException as e:  # noqa: BLE001
+                    out["run"] = f"raised {type(e).__name__}: {e}"
+                res.evaluations += 1
+                res.stats["cache_clear_cases"] = res.stats.get("cache_clear_cases", 0) + 1
+                want = {"first": ("v", 1), "other": ("v", 2), "again1": ("v", 1), "again2": ("v", 2),
+                        "third": ("v", 3), "again1b": ("v", 1), **{f"waiter{k}": ("v", 1) for k in range(nwait)}}
+                bad = {k: out.get(k, "nothing") for k in want if out.get(k) != want[k]}
+                if bad or "run" in out:
+                    res.violations.append(Violation(
+                        case, f"cache_clear() with a call in flight (maxsize={maxsize}, always_checkpoint={ac}, "
+                              f"{nwait} callers queued on the key): callers observed {bad or out.get('run')!r}",
+                        "C20:cache-clear-inflight"))
+
+
 def run(ctx: Ctx) -> Result:
     res = Result(rule="random scripts: 2..N caller tasks doing 1-3 calls over <=3 keys and a controller "
                       "task finishing / failing / cancelling executions in random order, ticking the "
@@ -661,12 +726,17 @@ def run(ctx: Ctx) -> Result:
         run_cases(cases[i: i + 250], res)
         if ctx.time_left() < 0:
             break
+    if ctx.focus is None:
+        run_cache_clear_leg(res)
     return res
 
 
 def replay(ctx: Ctx, case: Any) -> Result:
     res = Result(rule="replay")
-    run_cases([case], res)
+    if isinstance(case, dict) and "cache_clear" in case:
+        run_cache_clear_leg(res, only=case["cache_clear"])
+    else:
+        run_cases([case], res)
     return res
 
 
